@@ -129,13 +129,15 @@ CLAIMS.update({
                 note="the bounded history stand-in (native, random histories of full / partial / aborted evaluations incl. a "
                      "domain listing an object twice) exercises what the induction argues and is not counted as proved; "
                      "operator caches are keyed by object identity: data mutated between evaluations is outside 'unchanged data'"),
-    'C05': dict(level=P, text="What the operators write into their result caches (cache on, nothing covered yet): the truth value "
+    'C05': dict(level='other', text="What the operators write into their result caches (cache on, nothing covered yet): the truth value "
                 "stored with a row is the one the row is yielded with and the stored binding is part of that row "
                 "(Comparator, AND, ElseIf); coverage is recorded only by insertions (SeenSet.add / check contracts, "
                 "IndexedCache.check), never by lookups.",
                 note="the replay side (hit branch == miss branch under coherence) depends on IndexedCache.retrieve, which is "
                      "outside the executor's heap model and has a recorded defect (C20); it is covered by the bounded stand-in "
-                     "'cache on vs off' only, labelled bounded"),
+                     "'cache on vs off' only, labelled bounded. Level other: a genuine violation is recorded as a known finding "
+                     "(rule trees over two variables: a refined alternative replayed from the else-if result cache loses its "
+                     "conclusion), so no proof-level claim is made"),
     'C20': dict(level='other', text="SeenSet.add / check / clear and IndexedCache.check are proved against the abstract view "
                 "(list of stored constraints + all_seen): check(q) <=> all_seen or some stored constraint is contained in q, "
                 "lookups are pure, add appends, clear empties. IndexedCache.insert / retrieve (nested-dict trie, recursive "
